@@ -19,3 +19,6 @@ def run(repo, res, tier):
     _eff.rule_shared_class_state(repo, res)
     _eff.rule_memo(repo, res)
     hookrules.rule_no_hardcoded_containers(repo, res)
+    # values of the caller's substitute classes keep their class inside sets and sequences: no per-element conversion
+    from .. import hookrules as _hk4
+    _hk4.rule_h4(repo, res)
